@@ -201,6 +201,15 @@ def run(chk):
                                              for n in own_nodes(f.node) if isinstance(n, ast.stmt)),
               "R3", f"{NMT}:NmtMaster.send_command | code unchanged", f.loc(), "parameter `code` is reassigned before sending")
 
+    # the master records the commanded state before the frame leaves: a boot-up or heartbeat answering the command (delivered by the
+    # receive thread while send_message is still running) must not be overwritten by the bookkeeping of the command that caused it
+    sup = [c for c in ast.walk(f.node) if isinstance(c, ast.Call) and isinstance(c.func, ast.Attribute) and c.func.attr == "send_command"
+           and (src(c.func.value).startswith("super(") or src(c.func.value) == "NmtBase")]
+    for c in sends:
+        late = [u for u in sup if (u.lineno, u.col_offset) > (c.lineno, c.col_offset)]
+        chk.check(not late, "R3", f"{NMT}:NmtMaster.send_command | own state recorded before the frame is sent", f.loc(c),
+                  "the commanded state is recorded after send_message: the node's answer (boot-up after a reset) can arrive in between and is then overwritten, the master reports "
+                  "INITIALISING for a node that is PRE-OPERATIONAL")
     # master and slave both apply the command to their own state (through NmtBase.send_command) on every normal path
     for cname in ("NmtMaster", "NmtSlave"):
         fx = repo.func(NMT, f"{cname}.send_command", "C11.R3")
